@@ -94,7 +94,9 @@ def trivia(rng):
         return "\t \r\n"
     if r < 0.8:
         return " # a comment | , ( \" \n"
-    if r < 0.9:
+    if r < 0.86:
+        return rng.choice([" # a comment ending in backslash and blank \\ \n", " # tab after backslash \\\t\n", " # two backslashes and a blank \\\\ \n", " # c:\\tmp\\ \r\n"])
+    if r < 0.93:
         return " # continued \\\n still a comment \\\\\n "
     return "  #\\\\\\\n more \n"
 
@@ -103,6 +105,9 @@ SUGAR = [
     (".a.b", ".a | .b"), (".\"a\"", ".[\"a\"]"), (".a", ".[\"a\"]"), (".[\"a\"].b[0]", ".[\"a\"] | .b | .[0]"), (".a[]", ".a | .[]"), (".[]?", "try .[]"),
     (".a?", "try .a"), ("..", "recurse"), ("{a}", "{\"a\": .a}"), ("{a, b: 1}", "{\"a\": .a} + {\"b\": 1}"), ("1 as $x | {$x}", "1 as $x | {\"x\": $x}"),
     ("{\"a\\(1 + 1)\": 3}", "{(\"a\" + (1 + 1 | tostring)): 3}"), ("{(\"a\", \"b\"): (1, 2)}", "(\"a\", \"b\") as $k | (1, 2) as $v | {($k): $v}"),
+    ("\"x y\" | {@uri \"q=\\(.)\": 1}", "\"x y\" | {(@uri \"q=\\(.)\"): 1}"), ("{\"kMQ==\": 7} | .@base64 \"k\\(1)\"", "{\"kMQ==\": 7} | .[(@base64 \"k\\(1)\")]"),
+    ("{\"kMQ==\": 7} | . as {@base64 \"k\\(1)\": $x} | $x", "{\"kMQ==\": 7} | .[(@base64 \"k\\(1)\")] as $x | $x"), ("{@json \"a\\(\"b\")\"}", "{(@json \"a\\(\"b\")\"): .[(@json \"a\\(\"b\")\")]}"),
+    ("{\"a\\(1,2)\": 0}", "{(\"a\" + (1,2 | tostring)): 0}"), ("{\"a\"}", "{\"a\": .a}"), ("{\"a\\(1)\"}", "{(\"a1\"): .a1}"), ("{@text \"v\"}", "{\"v\": .v}"),
     ("{if: 1, then: 2, reduce: 3, def: 4, and: 5}", "{\"if\": 1, \"then\": 2, \"reduce\": 3, \"def\": 4, \"and\": 5}"),
     ("if . then 1 elif .a? then 2 else 3 end", "if . then 1 else (if .a? then 2 else 3 end) end"), ("if . then 1 end", "if . then 1 else . end"),
     ("if .a? then 1 elif false then 2 end", "if .a? then 1 else (if false then 2 else . end) end"),
